@@ -405,7 +405,12 @@ func TestC05(t *testing.T) {
 	// (2) history independence: stateful, model = memo of the first verdict per (DER, selection, config)
 	rapidRun(t, "histories", perShard(stats.Scale(300, 5000)), func(rt *rapid.T) {
 		var hc c05HistoryCase
-		for i, n := 0, rapid.IntRange(2, 5).Draw(rt, "nobj"); i < n; i++ {
+		if rapid.Bool().Draw(rt, "twins") {
+			// near-twins of one object: whatever identifies "the same object" to a hidden cache
+			// (serial, dates, names, key, signature ...) is shared by several different objects
+			hc.Pool = drawTwins(rt)
+		}
+		for i, n := 0, rapid.IntRange(2, 5).Draw(rt, "nobj"); i < n && len(hc.Pool) < 6; i++ {
 			hc.Pool = append(hc.Pool, drawObject(rt, 2, true))
 		}
 		// objects whose verdict depends on the configuration make leaks between runs visible
@@ -644,6 +649,106 @@ func harvestEnvNames() []string {
 	}
 	sort.Strings(out)
 	return out
+}
+
+// drawTwins draws a base object and 2-4 objects that differ from it in one respect only: the validity
+// re-encoded (same instants, other ASN.1 time type / zone form), one DER-tree edit, other signature bits,
+// another subject or another SAN under the same serial, dates and key.
+func drawTwins(rt *rapid.T) []engine.Case {
+	base := drawObject(rt, 1, true)
+	out := []engine.Case{base}
+	n := rapid.IntRange(2, 4).Draw(rt, "ntwins")
+	for i := 0; i < n; i++ {
+		tw := engine.Case{Kind: base.Kind, Base: base.Base}
+		how := rapid.IntRange(0, 5).Draw(rt, "twinkind")
+		if base.Kind != gen.Cert {
+			how = 1
+		}
+		switch how {
+		case 0: // same instants, other encoding
+			v, err := gen.ViewCert(base.DER)
+			pc, ok := gen.ParseCert(base.DER)
+			if err != nil || !ok {
+				continue
+			}
+			f := gen.TimeForm(rapid.IntRange(0, 3).Draw(rt, "form"))
+			if pc.NotBefore.Year() < 1951 || pc.NotAfter.Year() > 2048 {
+				f = gen.GenZ
+			}
+			v.SetValidity(pc.NotBefore, pc.NotAfter, f)
+			tw.DER, tw.Ops = v.DER(), append(append([]string{}, base.Ops...), "twin:validity-as-"+f.String())
+		case 1: // one edit
+			root, err := dt.Parse(base.DER)
+			if err != nil {
+				continue
+			}
+			op := gen.RandomEdit(rt, root)
+			tw.DER, tw.Ops = root.Encode(), append(append([]string{}, base.Ops...), "twin:"+op)
+		case 2: // other signature bits
+			v, err := gen.ViewCert(base.DER)
+			if err != nil {
+				continue
+			}
+			b := append([]byte{}, v.Signature().Body()...)
+			for j := 1; j < len(b); j++ {
+				b[j] = 0
+			}
+			v.Root.Children[2] = dt.Prim(0, 3, b)
+			tw.DER, tw.Ops = v.DER(), append(append([]string{}, base.Ops...), "twin:zero-signature")
+		case 3: // other subject, same serial / dates / key
+			v, err := gen.ViewCert(base.DER)
+			if err != nil {
+				continue
+			}
+			v.SetCN([]byte(rapid.SampledFrom([]string{"twin.example.com", "other_name.example.com", "*.example.org", "10.0.0.1"}).Draw(rt, "twincn")), 12)
+			tw.DER, tw.Ops = v.DER(), append(append([]string{}, base.Ops...), "twin:other-cn")
+		case 4: // other SAN
+			v, err := gen.ViewCert(base.DER)
+			if err != nil {
+				continue
+			}
+			g, d := gen.DrawGN(rt)
+			v.SetSAN(false, g)
+			tw.DER, tw.Ops = v.DER(), append(append([]string{}, base.Ops...), "twin:san="+d)
+		default: // validity shortened to seconds-free / extended forms via the edit table on a time leaf
+			root, err := dt.Parse(base.DER)
+			if err != nil {
+				continue
+			}
+			var times []*dt.Node
+			for _, l := range root.Leaves() {
+				if l.Class == 0 && (l.Tag == 23 || l.Tag == 24) {
+					times = append(times, l)
+				}
+			}
+			if len(times) == 0 {
+				continue
+			}
+			l := times[rapid.IntRange(0, len(times)-1).Draw(rt, "timeleaf")]
+			// drop or add the seconds, keep the instant where possible
+			c := string(l.Content)
+			switch {
+			case l.Tag == 23 && len(c) == 13 && strings.HasSuffix(c, "00Z"):
+				l.Content = []byte(c[:10] + "Z")
+			case l.Tag == 23 && len(c) == 13:
+				l.Tag, l.Content = 24, []byte(centuryOf(c)+c)
+			case l.Tag == 24 && len(c) == 15:
+				l.Content = []byte(c[:14] + ".0Z")
+			}
+			tw.DER, tw.Ops = root.Encode(), append(append([]string{}, base.Ops...), "twin:time-respelled")
+		}
+		if tw.DER != nil {
+			out = append(out, tw)
+		}
+	}
+	return out
+}
+
+func centuryOf(utc string) string {
+	if utc >= "50" {
+		return "19"
+	}
+	return "20"
 }
 
 // ---- lint histories (replayable) -------------------------------------------------
